@@ -35,6 +35,7 @@ type Case struct {
 	Type       string `json:"type"`
 	TTL        int64  `json:"ttl"`
 	Channel    string `json:"channel"`
+	Omit       string `json:"omit,omitempty"` // via=mqtt: member left out of the request document: "type" (no permission asked), "ttl" (no expiry asked), "both"
 }
 
 var parents = []string{"master", "master", "master", "extendable", "extendable", "master-expired", "master-foreign-cipher", "master-unknown-contract", "master-badsig", "ordinary", "extendable-expired", "garbage"}
@@ -47,7 +48,12 @@ func genCase(t *rapid.T) Case {
 		Parent: rapid.SampledFrom(parents).Draw(t, "parent"), ParentPerm: uint8(rapid.IntRange(0, 255).Draw(t, "pp")),
 		ParentTgt: rapid.SampledFrom([]string{"a/", "a/", "a/b/", "a/#/", "#/"}).Draw(t, "ptgt"),
 		Type:      rapid.StringMatching(`[rwslpexqRW1 ]{0,8}`).Draw(t, "type"), TTL: rapid.SampledFrom(ttls).Draw(t, "ttl"),
-		Channel: rapid.SampledFrom(channels).Draw(t, "channel")}
+		Channel: rapid.SampledFrom(channels).Draw(t, "channel"), Omit: rapid.SampledFrom([]string{"", "", "", "", "type", "ttl", "both"}).Draw(t, "omit")}
+	if rapid.IntRange(0, 5).Draw(t, "unicode") == 0 {
+		// letters of other scripts and symbols whose code points end in the byte of a permission letter (U+0172 ~ 'r', U+0177 ~ 'w',
+		// U+0173 ~ 's', U+016C ~ 'l', U+0170 ~ 'p', U+0165 ~ 'e', U+1F972 ~ 'r'): they are not permission letters
+		c.Type += rapid.SampledFrom([]string{"\u0172", "\u0177", "\u0173\u016c", "\u0170\u0165", "\U0001F972", "\u4e72", "\u00f2"}).Draw(t, "uni")
+	}
 	if strings.HasPrefix(c.Parent, "extendable") && rapid.IntRange(0, 3).Draw(t, "under") > 0 {
 		// mostly ask for the channel the parent is issued for
 		c.Channel = c.ParentTgt
@@ -217,7 +223,16 @@ func run(c Case) vkit.Result {
 		if ttl > 2147483647 || ttl < -2147483648 {
 			ttl = 0
 		}
-		pubs, err := e.cl.Request(7, "keygen", map[string]interface{}{"key": parentStr, "channel": c.Channel, "type": c.Type, "ttl": ttl})
+		doc := map[string]interface{}{"key": parentStr, "channel": c.Channel, "type": c.Type, "ttl": ttl}
+		if c.Omit == "type" || c.Omit == "both" {
+			delete(doc, "type")
+			requested = 0
+		}
+		if c.Omit == "ttl" || c.Omit == "both" {
+			delete(doc, "ttl")
+			c.TTL = 0
+		}
+		pubs, err := e.cl.Request(7, "keygen", doc)
 		if err != nil || len(pubs) != 1 {
 			return vkit.Failf("keygen request: %v, %d replies", err, len(pubs))
 		}
